@@ -105,6 +105,8 @@ func (m *manager) Run() (err error) {
 			var poll Poll
 			poll, err = openPoll()
 			if err != nil {
+				// the deferred Close only reaches m.polls: hand it the pollers opened so far as well
+				m.polls = polls[:idx]
 				return err
 			}
 			polls[idx] = poll
